@@ -47,6 +47,7 @@ PROPS = {
         'design_ref': 'DESIGN.md section 6.4',
         'verus_units': [
             {'template': 'units/c19_lsp.rs.in', 'modes': [[]], 'canary': True},
+            {'template': 'units/c19_syntax.rs.in', 'modes': [[]], 'canary': True},
         ],
         'kani': [],
         'not_covered': [
